@@ -202,7 +202,10 @@ class C10(F.Check):
                 e = K[name](x)
                 exp = T.iadd(T.imul(F.ival(r1, x), T.const_int(m)), T.const_int(off))
                 inter = T.imul(F.ival(r1, x), T.const_int(m))
-                return T.and_(T.in_range(exp, lo2, hi2), T.in_range(inter, lo2, hi2)), T.and_(T.not_(e.ub), T.eq(F.ival(r2, e.ret), exp))
+                pre = T.and_(T.in_range(exp, lo2, hi2), T.in_range(inter, lo2, hi2))
+                if e.ret is None:          # the kernel traps on every path (e.g. the offset alone does not fit the destination rep)
+                    return pre, T.FALSE
+                return pre, T.and_(T.not_(e.ub), T.eq(F.ival(r2, e.ret), exp))
             obs.append(F.Ob("rep_change:" + tag, [("x", F.ct_sort(r1))], fn2, key=dict(key, m=m, o=off), kernels=[name],
                             note="explicit destination rep: x*m and x*m + o fit the destination => the result is exactly x*m + o, no UB (m, o as read off the same-rep kernel)"))
         # closed consistency facts per list: positive integer multipliers, non-negative offsets, one common unit G' that divides
